@@ -214,6 +214,22 @@ def _tiny_variance(case, ctx, g):
                 ref_lp = util.mvn_logpdf(z, torch.zeros_like(z), Cw) - sc.log().sum()
                 with S.fast_computations(log_prob=False):
                     ctx.close("reading_leaves_distribution_alone", d.log_prob(y), ref_lp, (1e-6, 1e-6), cls="log_prob_after_read:" + case["rep"], reader=case["reader"])
+    # a single-output distribution (event size 1) in tiny units: the density is that of ITS variance (the reporting floor of
+    # `variance` is not part of the density), on the fast and the Cholesky path
+    import math
+
+    for fast in (True, False):
+        m1 = util.randn(g, *db, 1)
+        v1 = (10.0 ** (-13 + 2 * util.rand(g, *db, 1)))
+        d1 = MVN(m1, v1.unsqueeze(-1) if case["rep"] != "diag" else DiagLinearOperator(v1))
+        y1 = m1 + v1.sqrt() * util.randn(g, *db, 1)
+        with torch.no_grad(), S.fast_computations(log_prob=fast), warnings.catch_warnings():
+            warnings.simplefilter("ignore")
+            if case["reader"] == "variance":
+                d1.variance
+            lp = d1.log_prob(y1)
+        ref1 = (-0.5 * (y1 - m1) ** 2 / v1 - 0.5 * torch.log(v1) - 0.5 * math.log(2 * math.pi)).squeeze(-1)
+        ctx.close("log_prob", lp, ref1, (1e-6, 1e-6), cls=f"log_prob:event_size_1:tiny_variance:{'fast' if fast else 'chol'}")
     ctx.cell(_cellkey(case), nontrivial=True)
 
 
@@ -351,6 +367,21 @@ def _kl(case, ctx, g):
     ctx.close("kl", got, ref, "direct", cls=f"kl:{case['r1']}|{case['r2']}")
     same = torch.distributions.kl_divergence(p, MVN(m1.clone(), make_same(case["r1"], o1, C1)))
     ctx.close("kl_identical_zero", same, torch.zeros_like(same), (1e-6, 0.0), cls="kl:identical")
+    # means that are DIFFERENT views of one buffer (same first element, other strides): still the closed form of their values
+    if not case["b1"] and not case["b2"]:
+        buf = util.randn(g, 2 * N + 1)
+        va, vb = buf[:N], buf[: 2 * N : 2]
+        kv = torch.distributions.kl_divergence(MVN(va, C1.clone()), MVN(vb, C2.clone()))
+        dv = (vb - va).unsqueeze(-1)
+        C2i0 = torch.linalg.inv(C2)
+        refv = 0.5 * ((C2i0 @ C1).diagonal().sum() + (dv.T @ C2i0 @ dv).squeeze() - N + torch.logdet(C2) - torch.logdet(C1))
+        ctx.close("kl", kv, refv, "direct", cls="kl:means_are_views_of_one_buffer")
+        if N >= 2:
+            sq = util.randn(g, N, N)
+            kt = torch.distributions.kl_divergence(MVN(sq, C1.clone()), MVN(sq.t(), C2.clone()))  # batch of N: rows vs columns
+            dt_ = (sq.t() - sq).unsqueeze(-1)
+            reft = 0.5 * ((C2i0 @ C1).diagonal().sum() + (dt_.transpose(-1, -2) @ C2i0 @ dt_).squeeze(-1).squeeze(-1) - N + torch.logdet(C2) - torch.logdet(C1))
+            ctx.close("kl", kt, reft, "direct", cls="kl:mean_and_its_transpose")
     # the event size exactly AT the Cholesky size limit (Cholesky is documented for sizes up to and including it), with a
     # Lanczos rank far too small to be exact: fresh objects, nothing cached
     from gpytorch import settings as S
